@@ -15,6 +15,6 @@ for l in open('/verif/properties.jsonl'):
         print("WHY TESTS CANNOT SETTLE IT:", p['why_tests_cant']); print()
         print("ANCHORS:", json.dumps(p['anchors'], indent=1))
 PY
-  sed "s#/tmp/seedwork/@ID@#$d#g; s/@ID@/$id/g; s/@N@/$n/g" /verif/tools/seed_prompt.tmpl > $d/PROMPT.txt
+  sed "s#/tmp/seedwork/@ID@#$d#g; s/@ID@/$id/g; s/@N@/$n/g" ${SEED_PROMPT:-/verif/tools/seed_prompt.tmpl} > $d/PROMPT.txt
   git -C /repo worktree add -q --detach $d/wt HEAD
 done
